@@ -312,10 +312,41 @@ theorem C08_gen_routing_shape :
     shapesUnderstood InternalQueries.stream InternalQueries.switch = true
     ∧ InternalQueries.stream.prefixConst = internalPrefix := by decide
 
-/-- The six internal queries and the handler each one reaches. -/
-theorem C08_gen_routing_cases : InternalQueries.switch.cases =
-    [("ping", ""), ("conflict", "handleConflict"), ("install-key", "handleInstallKey"),
-     ("use-key", "handleUseKey"), ("remove-key", "handleRemoveKey"), ("list-keys", "handleListKeys")] := by decide
+/-- The model's routing table: the six internal queries and the handler each one
+reaches (`""` = the empty `ping` arm). -/
+def routingTable : List (String × String) :=
+  [("ping", ""), ("conflict", "handleConflict"), ("install-key", "handleInstallKey"),
+   ("use-key", "handleUseKey"), ("remove-key", "handleRemoveKey"), ("list-keys", "handleListKeys")]
+
+/-- **The regenerated dispatch table is the model's, as a TABLE**: the extractor reads
+the (constant → handler) pairs out of a `switch`, a tagless `switch` or an
+if / else-if chain, with cases in any order and case lists merged or split, and
+emits them sorted with every key once; here: same keys, and every name looks up
+the same handler in both. -/
+theorem C08_gen_routing_cases :
+    (∀ p ∈ InternalQueries.switch.cases, p ∈ routingTable)
+    ∧ (∀ p ∈ routingTable, p ∈ InternalQueries.switch.cases)
+    ∧ (InternalQueries.switch.cases.map (·.1)).Nodup := by decide
+
+/-- Looking a name up in the regenerated table is looking it up in the model's table. -/
+theorem C08_gen_routing_lookup (name : String) :
+    alookup InternalQueries.switch.cases name = alookup routingTable name := by
+  have h : ∀ n ∈ (InternalQueries.switch.cases ++ routingTable).map (·.1),
+      alookup InternalQueries.switch.cases n = alookup routingTable n := by decide
+  by_cases hm : name ∈ (InternalQueries.switch.cases ++ routingTable).map (·.1)
+  · exact h name hm
+  · have h1 : ∀ (l : List (String × String)), name ∉ l.map (·.1) → alookup l name = none := by
+      intro l hl
+      unfold alookup
+      cases hf : l.find? (fun p => p.1 == name) with
+      | none => rfl
+      | some p =>
+        exfalso; apply hl
+        have hp := List.find?_some hf
+        have : p.1 = name := by simpa using hp
+        exact List.mem_map.2 ⟨p, List.mem_of_find?_eq_some hf, this⟩
+    rw [List.map_append, List.mem_append] at hm
+    rw [h1 _ (fun x => hm (Or.inl x)), h1 _ (fun x => hm (Or.inr x))]
 
 /-- **Every name: forwarded to the application ⇔ not (a query whose name has the
 internal prefix).**  In particular an UNKNOWN name with the prefix is never
